@@ -430,4 +430,93 @@ theorem rmImm_formOk (ctx : Spec.X86.Ctx) (rule : Rule) (opcode d r0 : BitVec 32
   rw [hB]
   exact regOkB_plain k0 _ _ p hk0 rfl
 
+/-! ### accumulator short forms: `EmitX86Op` with an immediate -/
+
+theorem emitX86Op_bytesI (opcode : BitVec 32) (imm : BitVec 64) (n : Nat) (hopc : opcode &&& 0xF7801C00#32 = 0#32) :
+    emitX86Op opcode 0#32 imm n =
+      .ok (ppBytes ((opcode >>> 21) &&& 3#32).toNat ++ (rexOf opcode 0#32 0#32).toList ++ legacyEscape ((opcode >>> 8) &&& 3#32).toNat ++
+           opcode.truncate 8 :: emitImmediate imm n) := by
+  have hrex : ¬ (extractRex opcode 0#32) > 0x80#32 := by simp only [extractRex]; bv_decide
+  have e : extractRex opcode 0#32 ||| ((0#32 &&& 8#32) >>> 1) ||| ((0#32 &&& 8#32) >>> 3) = extractRex opcode 0#32 := by bv_decide
+  simp only [emitX86Op, emitRex, hrex, ↓reduceIte, bind, Except.bind, pure, Except.pure,
+    emitPP_eq opcode (by bv_decide), emitMM_eq opcode (by bv_decide), rexOf, e]
+  split <;> simp
+
+/-- `EmitX86Op` with an immediate: shape [fixed accumulator (not encoded), imm] -/
+theorem accImm_formOk (ctx : Spec.X86.Ctx) (rule : Rule) (opcode : BitVec 32) (k : RegKind) (f0 f3 : FormOp) (id : Nat) (v imm1 : BitVec 64) (isz : Nat)
+    (hm64 : ctx.mode64 = true) (hmode : (rule.modes &&& 2 != 0) = true) (hopc : opcode &&& 0xF7801C00#32 = 0#32)
+    (hs : rule.space = 0) (hpp8 : rule.pp &&& 8 = 0)
+    (h66 : (rule.pp &&& 1 != 0 || rule.osz == 16) = (((opcode >>> 21) &&& 3#32).toNat == 1))
+    (hF3 : (rule.pp &&& 2 != 0) = (((opcode >>> 21) &&& 3#32).toNat == 2)) (hF2 : (rule.pp &&& 4 != 0) = (((opcode >>> 21) &&& 3#32).toNat == 3))
+    (hri : rule.ri = false) (ha67 : rule.a67 = false) (hmk : rule.modKind = 0)
+    (himm : rule.immBytes = isz) (hrel : rule.relBytes = 0) (hmoff : rule.moff = false) (A : LegAgree rule opcode)
+    (hf0 : f0.role = .none)
+    (hic : ∀ p : Parsed, p.imm = emitImmediate imm1 isz → allOk (opConds ctx rule p 0 f3 (.imm v)).1 = true)
+    (hal : alignOps rule.oszEff rule.ops [.reg k id, .imm v] = some [(f0, some (.reg k id)), (f3, some (.imm v))]) :
+    ∃ bytes, emitX86Op opcode 0#32 imm1 isz = .ok bytes ∧ formOk ctx rule [.reg k id, .imm v] {} bytes = true := by
+  obtain ⟨hop, hmap, hw, hsafe⟩ := A
+  refine ⟨_, emitX86Op_bytesI opcode imm1 isz hopc, ?_⟩
+  have hpplt : ((opcode >>> 21) &&& 3#32).toNat < 4 := by
+    have : (opcode >>> 21) &&& 3#32 < 4#32 := by bv_decide
+    simpa [BitVec.lt_def] using this
+  have hmaplt : rule.map < 4 := by
+    rw [hmap]
+    have : (opcode >>> 8) &&& 3#32 < 4#32 := by bv_decide
+    simpa [BitVec.lt_def] using this
+  have hrexv : ∀ b, rexOf opcode 0#32 0#32 = some b → b >>> 4 = 4#8 ∧ (b.getLsbD 3 = opcode.getLsbD 27) := by
+    intro b hb'
+    unfold rexOf at hb'
+    dsimp only at hb'
+    split at hb'
+    · injection hb' with hb'; subst hb'; simp only [extractRex] at *; refine ⟨?_, ?_⟩ <;> bv_decide
+    · contradiction
+  have hnone : rexOf opcode 0#32 0#32 = none → opcode.getLsbD 27 = false := by
+    intro hn
+    unfold rexOf at hn
+    dsimp only at hn
+    split at hn
+    · contradiction
+    · rename_i hz; simp only [extractRex] at hz; bv_decide
+  have hrexH : ∀ b, rexOf opcode 0#32 0#32 = some b → b.toNat / 16 = 4 ∧ isLegacyPrefix b false = false := by
+    intro b hb'
+    obtain ⟨h4, -⟩ := hrexv b hb'
+    refine ⟨toNat_div16_eq4 b h4, ?_⟩
+    rw [Bool.eq_false_iff]
+    intro hh
+    simp only [isLegacyPrefix, Bool.or_eq_true, beq_iff_eq, Bool.false_and, Bool.or_false] at hh
+    bv_decide
+  have hoH : rule.map = 0 → isLegacyPrefix (opcode.truncate 8) false = false ∧
+      (rexOf opcode 0#32 0#32 = none → (opcode.truncate 8 : BitVec 8).toNat / 16 ≠ 4) := by
+    intro hm0
+    have hm0' : (opcode >>> 8) &&& 3#32 = 0#32 := by
+      apply BitVec.eq_of_toNat_eq; rw [← hmap, hm0]; rfl
+    obtain ⟨s1, s2⟩ := hsafe hm0'
+    refine ⟨s1, fun _ h => s2 ?_⟩
+    apply BitVec.eq_of_toNat_eq
+    simpa [BitVec.toNat_ushiftRight, Nat.shiftRight_eq_div_pow] using h
+  have hparse := parse_legacy_op_imm rule _ (rexOf opcode 0#32 0#32) (opcode.truncate 8) (emitImmediate imm1 isz) hpplt hs hpp8 hmaplt hmk hrexH hoH
+    (by rw [(imm_le_exact imm1 isz).1, himm, hrel]; rfl) hmoff
+  rw [hmap] at hparse
+  refine leg_acc_imm_formOk ctx rule _ _ _ k f0 f3 id v (by simpa [hm64] using hmode) hs hpp8 h66 hF3 hF2 hpplt hri ha67 hf0 (hic _ rfl) hal (by rw [hm64]; exact hparse)
+    rfl rfl rfl ?_ ?_
+  · show (opcode.truncate 8 : BitVec 8).toNat = rule.opcode
+    rw [hop]; exact toNat_eq_of_zext _ _ (by omega) (by bv_decide)
+  · rcases hw with h | h
+    · exact Or.inl h
+    · right
+      have hc : (opcode >>> 27) &&& 1#32 = 0#32 ∨ (opcode >>> 27) &&& 1#32 = 1#32 := by bv_decide
+      simp only [rexBit]
+      cases hr : rexOf opcode 0#32 0#32 with
+      | none =>
+        have w0 := hnone hr
+        rcases hc with hc | hc
+        · rw [h, hc]; simp
+        · exfalso; bv_decide
+      | some b =>
+        obtain ⟨-, wb⟩ := hrexv b hr
+        simp only [bit]
+        rcases hc with hc | hc
+        · rw [h, hc, wb]; simp; bv_decide
+        · rw [h, hc, wb]; simp; bv_decide
+
 end AsmjitVerif.Props.C01
